@@ -55,14 +55,32 @@ fn ms_of(i: std::time::Instant) -> i64 {
     }
 }
 
+thread_local! {
+    /// `bigids`: the peer's request ids are spread over the 64-bit range so that they all agree in their low 32 bits
+    /// (logical id i travels as 1 + i * 2^32); the trace keeps the logical ids.
+    static BIG_IDS: std::cell::Cell<bool> = const { std::cell::Cell::new(false) };
+}
+fn enc_id(i: u64) -> u64 {
+    if BIG_IDS.with(|b| b.get()) { 1 + (i << 32) } else { i }
+}
+fn dec_id(w: u64) -> u64 {
+    if !BIG_IDS.with(|b| b.get()) {
+        w
+    } else if w & 0xffff_ffff == 1 {
+        w >> 32
+    } else {
+        900_000 + (w & 0xffff) // an id nobody sent
+    }
+}
+
 pub fn describe_in(m: &ClientMessage<Req>) -> Value {
     match m {
-        ClientMessage::Request(r) => json!({"kind": "req", "id": r.id, "dl": ms_of(r.context.deadline),
+        ClientMessage::Request(r) => json!({"kind": "req", "id": dec_id(r.id), "dl": ms_of(r.context.deadline),
             "msg": r.message,
             "tr": format!("{:x}", u128::from(r.context.trace_context.trace_id)),
             "span": format!("{:x}", u64::from(r.context.trace_context.span_id)),
             "sampled": r.context.trace_context.sampling_decision == trace::SamplingDecision::Sampled}),
-        ClientMessage::Cancel { request_id, .. } => json!({"kind": "cancel", "id": request_id, "dl": 0, "msg": "",
+        ClientMessage::Cancel { request_id, .. } => json!({"kind": "cancel", "id": dec_id(*request_id), "dl": 0, "msg": "",
             "tr": "0", "span": "0", "sampled": false}),
         _ => json!({"kind": "other", "id": -1, "dl": 0, "msg": "", "tr": "0", "span": "0", "sampled": false}),
     }
@@ -72,9 +90,9 @@ pub fn describe_out(r: &Response<Resp>) -> Value {
     match &r.message {
         Ok(b) => {
             let h: i64 = b.trim_start_matches('h').parse().unwrap_or(-1);
-            json!({"id": r.request_id, "ok": true, "body": b, "ekind": "", "h": h, "throttle": false})
+            json!({"id": dec_id(r.request_id), "ok": true, "body": b, "ekind": "", "h": h, "throttle": false})
         }
-        Err(e) => json!({"id": r.request_id, "ok": false, "body": e.detail, "ekind": format!("{:?}", e.kind), "h": -1,
+        Err(e) => json!({"id": dec_id(r.request_id), "ok": false, "body": e.detail, "ekind": format!("{:?}", e.kind), "h": -1,
                          "throttle": e.kind == std::io::ErrorKind::WouldBlock}),
     }
 }
@@ -285,10 +303,10 @@ impl St {
                 {
                     let r: &Request<Req> = ifr.get();
                     dl = ms_of(r.context.deadline);
-                    rid = r.id;
+                    rid = dec_id(r.id);
                     emit(
                         "Yielded",
-                        json!({"h": inc, "id": r.id, "dl": dl, "msg": r.message,
+                        json!({"h": inc, "id": dec_id(r.id), "dl": dl, "msg": r.message,
                                "tr": format!("{:x}", u128::from(r.context.trace_context.trace_id)),
                                "span": format!("{:x}", u64::from(r.context.trace_context.span_id)),
                                "sampled": r.context.trace_context.sampling_decision == trace::SamplingDecision::Sampled}),
@@ -535,7 +553,7 @@ impl St {
                 };
                 let m = ClientMessage::Request(Request {
                     context: ctx,
-                    id,
+                    id: enc_id(id),
                     message: format!("m{}", n),
                 });
                 emit("PeerPush", json!({"item": describe_in(&m)}));
@@ -545,7 +563,7 @@ impl St {
                 let id = step["id"].as_u64().unwrap();
                 let m = ClientMessage::Cancel {
                     trace_context: trace::Context::default(),
-                    request_id: id,
+                    request_id: enc_id(id),
                 };
                 emit("PeerPush", json!({"item": describe_in(&m)}));
                 self.tr.borrow_mut().push_in(m);
@@ -849,6 +867,7 @@ pub struct OneResult {
 
 pub fn run_one(scn: u64, s: &Sched) -> OneResult {
     exec::log_begin_scenario(scn);
+    BIG_IDS.with(|b| b.set(s.cfg.get("bigids").and_then(|v| v.as_bool()).unwrap_or(false)));
     let mut st = St::new(&s.cfg);
     emit(
         "Reset",
@@ -906,6 +925,13 @@ pub fn run(a: &Args) -> Value {
     let mut steps_total = 0u64;
     let mut skipped = 0u64;
     let mut mismatches = vec![];
+    // every third scenario that does not say otherwise uses request ids that agree in their low 32 bits (recorded in its cfg,
+    // so that a replay reproduces it)
+    for (si, s) in scheds.iter_mut().enumerate() {
+        if s.cfg.get("bigids").is_none() && !s.cfg.get("burst").and_then(|v| v.as_bool()).unwrap_or(false) {
+            s.cfg["bigids"] = json!(si % 3 == 2);
+        }
+    }
     for (si, s) in scheds.iter().enumerate() {
         let scn = si as u64 + 1;
         let r = run_one(scn, s);
